@@ -28,7 +28,7 @@ FailedKinds(o) ==
   \cup (IF Agree(R(o, "enc"), R(o, "score")) /\ Agree(R(o, "enc"), R(o, "list")) THEN {} ELSE {"readers-disagree"})
 FailedRaw(o) == (IF Agree(R(o, "enc"), R(o, "score")) /\ Agree(R(o, "enc"), R(o, "list")) THEN {} ELSE {"readers-disagree"})
                 \cup (IF Has(o.vec, "valid") /\ ~(/\ \A n \in Encoded \cup {"plain"} : R(o, n).err = "" /\ Len(R(o, n).recs) = o.vec.valid
-                                                 /\ Agree(R(o, "enc"), R(o, "plain")) /\ R(o, "variants").err = "")
+                                                 /\ Agree(R(o, "enc"), R(o, "plain")) /\ R(o, "variants").err = "" /\ R(o, "variants").ok)
                       THEN {"valid-stream-records"} ELSE {})      \* (streams built as valid alignments: every reader, findReference included, reads them)
 Failed(o) ==
   IF o.obs.panic THEN {"panic"} ELSE IF o.obs.timeout THEN {"hang"} ELSE
